@@ -212,6 +212,7 @@ func (x *Exec) havocLoop(st *State, fn *ssa.Function, l *Loop, lc *LoopContract)
 	cells := map[*ssa.Alloc]bool{}
 	arrays := map[string]string{}
 	allHeap := false
+	logged := map[string]bool{}
 	seenFn := map[*ssa.Function]bool{}
 	var scanBlocks func(f *ssa.Function, blocks []*ssa.BasicBlock, inBody func(*ssa.BasicBlock) bool)
 	var rootOf func(v ssa.Value) ssa.Value
@@ -333,6 +334,18 @@ func (x *Exec) havocLoop(st *State, fn *ssa.Function, l *Loop, lc *LoopContract)
 					}
 				case ssa.CallInstruction:
 					cc := ins.Common()
+					if cc.IsInvoke() {
+						full := "(" + types.TypeString(types.Unalias(cc.Value.Type()), nil) + ")." + cc.Method.Name()
+						if fc := x.P.Externs[full]; fc != nil {
+							if fc.Logged {
+								logged[lastName(full)] = true
+							}
+							for _, ms := range fc.ModSrc {
+								x.noteModArrays(nil, fc, ms, arrays, &allHeap)
+							}
+						}
+						continue
+					}
 					if bi, ok := cc.Value.(*ssa.Builtin); ok {
 						switch bi.Name() {
 						case "append":
@@ -361,6 +374,9 @@ func (x *Exec) havocLoop(st *State, fn *ssa.Function, l *Loop, lc *LoopContract)
 							fc = x.P.Externs[callee.String()]
 						}
 						if fc != nil {
+							if fc.Logged {
+								logged[lastName(strings.ReplaceAll(callee.String(), x.P.ModPath+"/", ""))] = true
+							}
 							if fc.Inline && !seenFn[callee] {
 								seenFn[callee] = true
 								scanBlocks(callee, callee.Blocks, func(*ssa.BasicBlock) bool { return true })
@@ -445,7 +461,14 @@ func (x *Exec) havocLoop(st *State, fn *ssa.Function, l *Loop, lc *LoopContract)
 			}
 		}
 	}
+	// call records of earlier iterations are no longer addressable
+	st.CallLog = nil
 	// call counters
+	for k := range logged {
+		if _, ok := st.Calls[k]; !ok {
+			st.Calls[k] = "0"
+		}
+	}
 	for _, k := range sortedKeys(st.Calls) {
 		c := x.D.Fresh("nc."+k, SInt)
 		st.Assume(fmt.Sprintf("(>= %s %s)", c, st.Calls[k]))
